@@ -195,7 +195,10 @@ class StateTomography:
                 operations.
 
         """
-        circuit = self.base_circuit.copy()
+        # Add base circuit to a new circuit so that any heralded modes of the
+        # base circuit are not included in the mode numbering
+        circuit = Circuit(self.base_circuit.input_modes)
+        circuit.add(self.base_circuit)
         # Check number of circuits is correct
         if len(measurement_operators) != self.n_qubits:
             msg = (
